@@ -104,7 +104,8 @@ def _inside_grid_with_n(main_domain, domain_a, domain_b, n, params, invert, devi
     if number_inside == n:
         return grid_a
     # if the grid does not fit, scale the number of points
-    scaled_n = int(n**2 / number_inside)
+    # (if no grid point was valid, just try a finer grid)
+    scaled_n = int(n**2 / number_inside) if number_inside > 0 else 10 * n
     grid_a = domain_a.sample_grid(n=scaled_n, params=params, device=device)
     _, repeat_params = main_domain._repeat_params(scaled_n, params)
     index_valid = _check_in_b(domain_b, repeat_params, invert, grid_a)
@@ -240,6 +241,9 @@ def _boundary_grid_with_n(main_domain, domain_a, domain_b, n, params, device):
     a_surface = domain_a.boundary.volume(params, device=device)
     b_surface = domain_b.boundary.volume(params, device=device)
     approx_surface = a_surface * a_correct / n + b_surface * b_correct / n
+    if sum_of_correct == 0:
+        # no grid point was valid, just try finer grids
+        approx_surface = (a_surface + b_surface) / 10.0
     scaled_a = int(n * a_surface / approx_surface) + 1  # round up
     scaled_b = max(int(n * b_surface / approx_surface), 1)  # round to floor, but not 0
     grid_a = domain_a.boundary.sample_grid(n=scaled_a, params=params, device=device)
